@@ -196,10 +196,20 @@ DevCodec(b) == AnyShrunk(b.secs) /\ DecodeClass(b.method) # "ok"              \*
 \* DECODED bytes -- which differ whenever a lossy (ADPCM) stage was applied
 DevLossyCrc(b) == b.single /\ "SECTOR_CRC" \in b.flags /\ b.secs[1].shrunk /\ LossySel(b.method)
 
+\* Whether the reader decrypts a block is decided by the block's ENCRYPTED flag -- not by the derived key being non-zero:
+\* 0 is a legal key ((base + pos) XOR size with FIX_KEY, or a name whose FILE_KEY hash is 0), and it is also what read_file
+\* passes down for "not encrypted".  The writer encrypts the offset table with key - 1 = 0xFFFFFFFF and sector j with
+\* key + j whatever the key is.  ReaderDecryptsOn = "key" is the must-refute variant (`encrypted = key != 0`,
+\* MC_MpqBuild_negzkey): a sectored file whose key is exactly 0 then comes back as the stored bytes.
+ReaderDecryptsOn == "flag"
+ReaderTakesEncrypted(b, rkey) == IF ReaderDecryptsOn = "flag" THEN "ENCRYPTED" \in b.flags ELSE rkey # <<0, 0>>
+DevZeroKeyTakenAsPlain(b, rkey) == "ENCRYPTED" \in b.flags /\ ~ReaderTakesEncrypted(b, rkey) /\ ~b.single
+
 \* Outcome class of reading block b under name nm:
 \*   "exact" | "err:limit" | "err:codec" | "err:crc" | "panic" | "zerofill" (F-C01-c) | "table-prepended" | "garbage"
 ReadBlock(b, nm) ==
-  LET keyOk == "ENCRYPTED" \notin b.flags \/ KeyFor(nm, "FIX_KEY" \in b.flags, b.pos, b.fsize) = b.key IN
+  LET rkey  == IF "ENCRYPTED" \in b.flags THEN KeyFor(nm, "FIX_KEY" \in b.flags, b.pos, b.fsize) ELSE <<0, 0>>
+      keyOk == "ENCRYPTED" \notin b.flags \/ (rkey = b.key /\ ~DevZeroKeyTakenAsPlain(b, rkey)) IN
   IF ReaderDirect(b) THEN
      IF ~b.single THEN (IF "ENCRYPTED" \in b.flags THEN "garbage" ELSE "table-prepended")   \* reads csize bytes: table + data
      ELSE IF ~keyOk THEN "garbage"
